@@ -32,7 +32,7 @@ add("C12", "exploration",
     "Exploration only. For ill-conditioned divisors the exact-multiple remainder allowance grows with the a-posteriori amplification factor, so small defects there may be masked.",
     "DESIGN.md 4/C12")
 add("C13", "exploration",
-    "model-based property testing (proptest): operation histories vec(op,0..40) interpreted against the implementation and a reference coefficient map compared after every step; evaluation/calculus identities against naive power-sum and term-wise oracles",
+    "model-based property testing (proptest): operation histories vec(op,0..40) interpreted against the implementation and a reference coefficient map compared after every step; evaluation/calculus identities against naive power-sum and term-wise oracles; thorough tier adds a coverage-guided libFuzzer target (cargo-fuzz) on the same case structure and oracle",
     "Random edit/arithmetic histories (set/purge at, before and beyond the end, purge_leading, scalar and polynomial arithmetic, linear factors, derivative, antiderivative, slice round trip) are run in lock-step with a reference coefficient map; evaluation, derivative, antiderivative and definite-integral identities are checked on the same polynomials; no step may panic.",
     "Exploration only. The reference map replicates single IEEE operations and is re-synchronised to the implementation after every accepted step (each step judged on its own).",
     "DESIGN.md 4/C13")
@@ -102,8 +102,8 @@ add("C03", "exploration",
     "Exploration only. BDF points are judged by the residual of the implicit formula (<= 4 tol), so a different but equally accurate implicit solve is indistinguishable.",
     "DESIGN.md 4/C03")
 add("C04", "exploration",
-    "property-based testing (proptest): tolerance ladders and Euler step ladders against closed-form solutions (two-sided order check), metamorphic pairs complex vs equivalent real system and static vs dynamic dimension",
-    "Tolerance ladders 1e-3..1e-10 for the six adaptive solvers and step ladders for Euler on closed-form problems with a problem-dependent amplification factor; complex scalar problems against the equivalent real 2x2 system; the same problem through new() and new_dyn().",
+    "property-based testing (proptest): tolerance ladders and Euler step ladders against closed-form solutions (two-sided order check), metamorphic pairs complex (dimension 1-2, incl. components in quadrature and estimator-limited steps) vs equivalent real system and static vs dynamic dimension",
+    "Tolerance ladders 1e-3..1e-10 for the six adaptive solvers and step ladders for Euler on closed-form problems with a problem-dependent amplification factor; complex problems of dimension 1 and 2 against the equivalent real system of twice the dimension (both within the accuracy bound; the complex formulation's worst error within 20x that of the real one, comparable step counts; point-by-point equality when the step sequences coincide); the same problem through new() and new_dyn().",
     "Exploration only. Static and dynamic runs differ by rounding in the error norms, which the step controller amplifies (eps|f|/tol); they are compared after transporting points with the reference flow.",
     "DESIGN.md 4/C04")
 add("C05", "exploration",
@@ -113,7 +113,7 @@ add("C05", "exploration",
     "DESIGN.md 4/C05")
 add("C06", "fault_enumeration",
     "exhaustive small-scope enumeration of builder-call sequences against a reference model of the builder contract (model-based testing) + fault enumeration: the user derivative fails at every call number k of a fault-free reference run; proptest-generated longer sequences",
-    "Every sequence of up to 4 (quick) / 5 (thorough) builder calls over a 17-symbol alphabet for all 7 builders, static and dynamic, is compared call by call with a reference model (error kinds, min/max adjustment, MissingParameters, dimension misuse), and sequences that build are solved; for 10 configurations per solver every fault position k (all k <= 400) must give a bit-identical prefix, exactly one Err(UserError(Marker(k))), then None, no further derivative calls, and the same error from collect_vec.",
+    "Every sequence of up to 4 (quick) / 5 (thorough) builder calls over a 17-symbol alphabet for all 7 builders, static and dynamic, is compared call by call with a reference model (error kinds, min/max adjustment, MissingParameters, dimension misuse), every complete configuration minus one mandatory call (all rotations) must report MissingParameters, and sequences that build are solved; for 10 configurations per solver every fault position k (all k <= 400) must give a bit-identical prefix, exactly one Err(UserError(Marker(k))), then None, no further derivative calls, and the same error from collect_vec.",
     "The builder alphabet is finite by construction (two values per time, four per step bound); faults beyond call 400 are sampled log-uniformly.",
     "DESIGN.md 4/C06")
 
